@@ -128,6 +128,7 @@ def build_go():
 
 
 def regen_tables():
+    os.makedirs(os.path.join(COQ, "Gen"), exist_ok=True)
     rc, out = sh([os.path.join(BUILD, "gotables"), REPO, os.path.join(COQ, "Gen")], timeout=120)
     if rc != 0:
         raise BuildError("gotables (translator could not read the Go tables)", out)
